@@ -21,7 +21,8 @@ RULE = (
     "second variable gets the samples in a different order), with and without a VariableScaler. Oracle in the user domain: "
     "raw = x + m*s; NONE -> raw; TRUNCATE -> clip; MIRROR -> raw if inside, the single reflection if it lands inside, "
     "otherwise the folded value or a bound value is required. Checked on the evaluator rows and on reported perturbed_variables. "
-    "Every case is non-trivial; distinct = distinct parameter tuple."
+    "Plus: three injected samplers with distinct designs and EVERY assignment of sampler ids to the variables (ids may skip "
+    "one) x boundary types: each variable is perturbed by its assigned sampler. Every case is non-trivial."
 )
 ASSUMPTIONS = [
     "dyadic bounds/magnitudes/samples so that x + m*s is exact without a scaler (compared with ==); 1e-12 relative with a scaler",
@@ -157,16 +158,72 @@ def judge(case: dict[str, Any]) -> Judgement:
     return j
 
 
+DESIGNS3 = [[[1.0, 2.0], [-0.5, 0.25], [3.0, -1.0]], [[0.5, -4.0], [2.0, 1.0], [-1.0, 0.75]], [[-2.0, 0.125], [0.25, 3.0], [1.5, -0.5]]]
+
+
+def judge_multi(case: dict[str, Any]) -> Judgement:
+    """Three injected samplers with distinct designs; EVERY assignment of samplers to the two variables (ids may skip)."""
+    from ropt.ensemble_evaluator import EnsembleEvaluator
+    from ropt.results import GradientResults
+
+    j = Judgement()
+    assign = case["assign"]
+    btypes = case["btypes"]
+    x = [0.5, -0.25]
+    config_dict = {
+        "variables": {"initial_values": x, "lower_bounds": [-1.0, -1.0], "upper_bounds": [2.0, 2.0]},
+        "gradient": {"number_of_perturbations": 3, "perturbation_magnitudes": [0.5, 0.25], "boundary_types": btypes, "samplers": assign},
+        "samplers": [{"method": "verif/design", "options": {"design": [[row[v] for v in range(2) if assign[v] == k] for row in DESIGNS3[k]]},
+                      "shared": True} for k in range(3)],
+    }
+    try:
+        config = validate(config_dict)
+        manager, _ = make_manager()
+        evaluator = TableEvaluator(lambda xx, r: [float(xx.sum())], 1, 0)
+        ens = EnsembleEvaluator(config, None, evaluator, manager)
+        results = ens.calculate(np.array(x), compute_functions=True, compute_gradients=True)
+    except Exception as exc:  # noqa: BLE001
+        j.fail(f"multi-sampler-run-raised:{type(exc).__name__}", message=str(exc)[:200], assign=assign)
+        return j
+    gres = next(item for item in results if isinstance(item, GradientResults))
+    reported = np.asarray(gres.evaluations.perturbed_variables)[0]
+    rows = evaluator.calls[0].variables[1:]
+    for name, mat in (("evaluator-rows", rows), ("reported", reported)):
+        for k in range(3):
+            for v in range(2):
+                raw = x[v] + [0.5, 0.25][v] * DESIGNS3[assign[v]][k][v]
+                setting = {"bk": "both", "btype": btypes[v], "ptype": 1, "mag": [0.5, 0.25][v], "pos": 0}
+                lb, ub = -1.0, 2.0
+                if btypes[v] == 1 or lb <= raw <= ub:
+                    exp = raw
+                elif btypes[v] == 2:
+                    exp = min(max(raw, lb), ub)
+                else:
+                    exp = 2 * lb - raw if raw < lb else 2 * ub - raw
+                if float(mat[k, v]) != exp:
+                    j.fail("perturbation-not-from-the-assigned-sampler", where=name, assign=assign, variable=v, observed=float(mat[k, v]), expected=exp)
+                    return j
+    j.outcome = f"multi:{assign}"
+    return j
+
+
 def shards(tier: str, seed: int) -> list[dict[str, Any]]:
     n = len(SETTINGS)
     out = []
     for a in range(n):
         out.append({"a": a, "tier": tier, "seed": seed})
+    out.append({"multi": True, "tier": tier, "seed": seed})
     return out
 
 
 def run_shard(shard: dict[str, Any]) -> core.ShardResult:
     rec = Recorder(shard)
+    if shard.get("multi"):
+        for assign in itertools.product((0, 1, 2), repeat=2):
+            for btypes in itertools.product((1, 2, 3), repeat=2):
+                case = {"multi": True, "assign": list(assign), "btypes": list(btypes)}
+                rec.add(("multi", assign, btypes), case, judge_multi(case))
+        return rec.finish()
     a = shard["a"]
     n = len(SETTINGS)
     for b in range(n):
@@ -179,6 +236,8 @@ def run_shard(shard: dict[str, Any]) -> core.ShardResult:
 
 
 def run_case(case: dict[str, Any]) -> Judgement:
+    if case.get("multi"):
+        return judge_multi(case)
     return judge(case)
 
 
